@@ -28,11 +28,20 @@ class Ctx:
         if exhaustive:
             self.exhaustive_rules.append(rule)
 
+    def _record(self, rule, key, verdict, detail, where):
+        for r in self.results:
+            if r["rule"] == rule and r["key"] == key:
+                # same instance reported again (e.g. from another path): a violation wins
+                if verdict == "VIOLATED" and r["verdict"] != "VIOLATED":
+                    r.update(verdict=verdict, detail=detail, where=where)
+                return
+        self.results.append(dict(rule=rule, key=key, verdict=verdict, detail=detail, where=where))
+
     def ok(self, rule: str, key: str, detail: str = "", where: str = "") -> None:
-        self.results.append(dict(rule=rule, key=key, verdict="holds", detail=detail, where=where))
+        self._record(rule, key, "holds", detail, where)
 
     def bad(self, rule: str, key: str, detail: str, where: str = "") -> None:
-        self.results.append(dict(rule=rule, key=key, verdict="VIOLATED", detail=detail, where=where))
+        self._record(rule, key, "VIOLATED", detail, where)
 
     def check(self, cond: bool, rule: str, key: str, detail_ok: str, detail_bad: str, where: str = "") -> bool:
         if cond:
